@@ -272,6 +272,7 @@ class ThreadAgent:
         self.port = self.sock.getsockname()[1]
         self.script = script
         self.log = []
+        self.sent = []          # time.monotonic() of every datagram actually handed to the kernel
         self.stop = False
         self.t = threading.Thread(target=self._run, daemon=True)
         self.t.start()
@@ -290,6 +291,7 @@ class ThreadAgent:
                 for delay, r in self.script(d):
                     if delay:
                         time.sleep(delay)
+                    self.sent.append(time.monotonic())      # (before the send: the receiver may be faster than this thread)
                     self.sock.sendto(r, a)
             except Exception as ex:  # noqa: BLE001
                 self.log.append(("script-error", repr(ex)))
